@@ -229,7 +229,9 @@ pub fn sched_point() {
 /// As in `rayon`, collecting `Result` / `Option` items into a `Result<C, E>` /
 /// `Option<C>` stops at the first failing item; any other collection visits
 /// every item.
-pub trait SimCollect<R: Send>: FromParallelIterator<R> + FromIterator<R> {
+pub trait SimCollect<R: Send>:
+    FromParallelIterator<R> + FromIterator<R>
+{
     /// Returns `true` if this item stops the collection
     fn stops(_r: &R) -> bool {
         false
@@ -668,8 +670,10 @@ where
         let mut stop = false;
         let mut ran = 0u64;
         loop {
-            let running =
-                segs.iter().filter(|s| matches!(s, Seg::Running(..))).count();
+            let running = segs
+                .iter()
+                .filter(|s| matches!(s, Seg::Running(..)))
+                .count();
             let cands: Vec<usize> = segs
                 .iter()
                 .enumerate()
@@ -752,7 +756,8 @@ where
             let failed = fail(&r);
             event("item_end", idx as u64, failed as u64);
             // the item may finish before or after the previous ones
-            let pos = order.len() - choose("bridge_late", 1 + order.len().min(3) as u32) as usize;
+            let pos = order.len()
+                - choose("bridge_late", 1 + order.len().min(3) as u32) as usize;
             order.insert(pos, idx);
             results[idx] = Some(r);
             stop |= failed;
@@ -824,7 +829,8 @@ where
     std::thread::scope(|scope| {
         let mut st: Vec<St> = ranges.iter().map(|_| St::Pending).collect();
         // the reply each blocked segment thread will receive when resumed
-        let mut replies: Vec<Option<Rep>> = ranges.iter().map(|_| None).collect();
+        let mut replies: Vec<Option<Rep>> =
+            ranges.iter().map(|_| None).collect();
         loop {
             let running = st.iter().filter(|s| **s == St::Running).count();
             let cands: Vec<usize> = st
@@ -899,7 +905,8 @@ where
             }
             // run `si` until it needs a scheduling decision
             loop {
-                let k = 1 + (1u32 << choose("preempt_log2", 13))
+                let k = 1
+                    + (1u32 << choose("preempt_log2", 13))
                     + choose("preempt_jitter", 7);
                 let req = {
                     let mut g = ctl.m.lock().unwrap();
